@@ -2,6 +2,7 @@ package checks
 
 import (
 	"fmt"
+	"math"
 	"strings"
 	"sync"
 	"sync/atomic"
@@ -138,6 +139,89 @@ func c05ShortCircuit(rep *ev.Reporter, tier string) (n, nt int64) {
 		}
 		if i == 7 {
 			rep.Sample(map[string]interface{}{"case": caseID, "condition": text, "probes_expected": wantChk, "value": want, "fails": werr != nil})
+		}
+	})
+	return n, nt
+}
+
+// Non-finite reals: NaN and the infinities follow Go's float64 rules (every ordering comparison with a NaN
+// operand is false, NaN != x is true, Inf compares as the extreme value). The expected value is computed by
+// Go's own operators on the same float64 operands.
+func c05NonFinite(rep *ev.Reporter) (n, nt int64) {
+	type opnd struct {
+		text string
+		v    float64
+	}
+	nan, inf := math.NaN(), math.Inf(1)
+	world := func() *ref.World {
+		w := ref.NewWorld()
+		f, g, h := facts.New(), facts.New(), facts.New()
+		f.F, g.F, h.F = nan, inf, -inf
+		f.F32 = float32(nan)
+		w.Objs["F"], w.Objs["G"], w.Objs["H"] = f, g, h
+		return w
+	}
+	ops := []opnd{{"F.F", nan}, {"G.F", inf}, {"H.F", -inf}, {"1.5", 1.5}, {"0.0", 0}, {"F.F32", nan}, {"(F.F + 1.0)", nan}, {"(G.F + H.F)", nan}, {"(G.F * 2.0)", inf}, {"-1.0e308", -1.0e308}}
+	cmp := map[string]func(a, b float64) bool{
+		"<": func(a, b float64) bool { return a < b }, "<=": func(a, b float64) bool { return a <= b },
+		">": func(a, b float64) bool { return a > b }, ">=": func(a, b float64) bool { return a >= b },
+		"==": func(a, b float64) bool { return a == b }, "!=": func(a, b float64) bool { return a != b },
+	}
+	type tc struct {
+		text string
+		want bool
+	}
+	var cases []tc
+	for _, a := range ops {
+		for _, b := range ops {
+			for _, op := range []string{"<", "<=", ">", ">=", "==", "!="} {
+				cases = append(cases, tc{a.text + " " + op + " " + b.text, cmp[op](a.v, b.v)})
+				cases = append(cases, tc{"!(" + a.text + " " + op + " " + b.text + ")", !cmp[op](a.v, b.v)})
+			}
+		}
+	}
+	var mu sync.Mutex
+	ParallelEach(len(cases), func(i int) {
+		c := cases[i]
+		caseID := fmt.Sprintf("c05/non-finite/%d", i)
+		if rep.ReplayFilter != "" && rep.ReplayFilter != caseID {
+			return
+		}
+		lib, err := hx.BuildText("rule r { when " + c.text + " then F.Act(1); Retract(\"r\"); }")
+		if err != nil {
+			mu.Lock()
+			rep.Violation("C05:rejected:non-finite", fmt.Sprintf("well-formed condition rejected: %s\n  %v", c.text, err), map[string]interface{}{"case": caseID, "grl": c.text})
+			mu.Unlock()
+			return
+		}
+		once := func() (string, string) {
+			kb, err := lib.NewKnowledgeBaseInstance(hx.KBName, hx.KBVer)
+			if err != nil {
+				return "C05:non-finite:instance-failed", err.Error()
+			}
+			res := hx.Fetch(kb, world(), true, 0)
+			atomic.AddInt64(&n, 1)
+			if res.Panic != nil || res.Err != nil {
+				return "C05:non-finite:comparison-fails", fmt.Sprintf("`%s`: %v %v", c.text, res.Err, res.Panic)
+			}
+			if got := len(res.Names) == 1; got != c.want {
+				return "C05:wrong-value:non-finite-real", fmt.Sprintf("`%s` (F.F = NaN, G.F = +Inf, H.F = -Inf): Go's float64 rules give %v, the rule's condition is %v", c.text, c.want, got)
+			}
+			return "", ""
+		}
+		sig, what := once()
+		atomic.AddInt64(&nt, 1)
+		if sig != "" {
+			if s2, _ := once(); s2 != sig {
+				fmt.Printf("HARNESS-NONDETERMINISM property=C05 case=%s\n", caseID)
+				return
+			}
+			mu.Lock()
+			rep.Violation(sig, what, map[string]interface{}{"case": caseID, "grl": c.text})
+			mu.Unlock()
+		}
+		if i == 3 {
+			rep.Sample(map[string]interface{}{"case": caseID, "condition": c.text, "value_by_go": c.want})
 		}
 	})
 	return n, nt
